@@ -486,6 +486,18 @@ type wireToken struct {
 func (r *registry) doTokenRequest(req *http.Request) (*wireToken, error) {
 	client := &http.Client{
 		Transport: r.transport,
+		// The credentials in the request are for the realm that
+		// the registry has named and for nobody else, so don't
+		// follow a redirect that leads to another host.
+		CheckRedirect: func(req *http.Request, via []*http.Request) error {
+			if req.URL.Host != via[0].URL.Host {
+				return http.ErrUseLastResponse
+			}
+			if len(via) >= 10 {
+				return errors.New("stopped after 10 redirects")
+			}
+			return nil
+		},
 	}
 	resp, err := client.Do(req)
 	if err != nil {
